@@ -11,7 +11,7 @@ from analysis.interproc import Interproc
 from analysis.report import load_table
 
 ASSUMPTIONS = [
-    "arithmetic: nothing is assumed from overflow checks (a result that may leave its type's range is an unknown value, as in a release build); of the checks themselves only the unsigned subtraction is in scope (class S9u: it must not go below zero - the commonest arithmetic panic of a dev / test build); the other overflow checks (S9) are out of scope",
+    "arithmetic: a result that may leave its type's range is an unknown value, as in a release build; of the overflow checks only the unsigned subtraction is in scope (class S9u: it must not go below zero - the commonest arithmetic panic of a dev / test build; where it is proven or handed to the callers, a >= b is relied on afterwards, where it stays an open finding nothing is assumed); the other overflow checks (S9) are out of scope and nothing is assumed from them",
     "A1: container lengths are below 2^31 (so `len() as i32` keeps its value)",
     "A2: 64-bit additions/multiplications of offsets and lengths do not wrap",
     "third-party crates (std, regex, png, base64, chrono, icy_sixel, anyhow, ...) panic only through the documented panicking APIs listed in analysis/callmodels.py",
